@@ -1,13 +1,668 @@
 package main
 
 import (
+	"encoding/json"
+	"flag"
 	"fmt"
+	"go/ast"
+	"go/token"
+	"go/types"
+	"os"
+	"regexp"
+	"sort"
+	"strings"
+	"time"
+
 	"golang.org/x/tools/go/packages"
 )
 
-func main() {
-	cfg := &packages.Config{Mode: packages.NeedSyntax | packages.NeedTypes | packages.NeedTypesInfo | packages.NeedName | packages.NeedFiles, Dir: "/repo", BuildFlags: []string{"-tags=verif"}}
+func loadProg(repo, contractsPath, preludePath string) (*Prog, error) {
+	cfg := &packages.Config{
+		Mode:       packages.NeedSyntax | packages.NeedTypes | packages.NeedTypesInfo | packages.NeedName | packages.NeedFiles,
+		Dir:        repo,
+		BuildFlags: []string{"-tags=verif"},
+		Env:        append(os.Environ(), "GOFLAGS=-mod=mod", "GOPROXY=off", "GOSUMDB=off", "GOTOOLCHAIN=local"),
+	}
 	pkgs, err := packages.Load(cfg, ".")
-	fmt.Println(len(pkgs), err)
-	for _, p := range pkgs { fmt.Println(p.Name, len(p.Syntax), p.Errors) }
+	if err != nil {
+		return nil, err
+	}
+	if len(pkgs) != 1 {
+		return nil, fmt.Errorf("expected one package, got %d", len(pkgs))
+	}
+	pk := pkgs[0]
+	if len(pk.Errors) > 0 {
+		return nil, fmt.Errorf("package does not type-check: %v", pk.Errors[0])
+	}
+	p := &Prog{Fset: pk.Fset, Pkg: pk.Types, Info: pk.TypesInfo, Files: pk.Syntax, Funcs: map[string]*ast.FuncDecl{}, Sigs: map[string]SpecSig{}}
+	for _, f := range pk.Syntax {
+		for _, d := range f.Decls {
+			fd, ok := d.(*ast.FuncDecl)
+			if !ok || fd.Body == nil {
+				continue
+			}
+			key := fd.Name.Name
+			if fd.Recv != nil && len(fd.Recv.List) == 1 {
+				key = recvTypeName(fd.Recv.List[0].Type) + "." + key
+			}
+			p.Funcs[key] = fd
+		}
+	}
+	cf, err := parseContractFile(contractsPath)
+	if err != nil {
+		return nil, err
+	}
+	p.Contracts = cf
+	pre, err := os.ReadFile(preludePath)
+	if err != nil {
+		return nil, err
+	}
+	p.Prelude = string(pre)
+	p.initPrelude()
+	reSig := regexp.MustCompile(`(?m)^;sig (\S+) : (.*)-> (.+)$`)
+	for _, m := range reSig.FindAllStringSubmatch(p.Prelude, -1) {
+		var sig SpecSig
+		for _, a := range splitSorts(strings.TrimSpace(m[2])) {
+			sig.Args = append(sig.Args, parseSort(a))
+		}
+		sig.Res = parseSort(strings.TrimSpace(m[3]))
+		p.Sigs[m[1]] = sig
+	}
+	return p, nil
+}
+
+func splitSorts(s string) []string {
+	var out []string
+	depth := 0
+	cur := ""
+	for _, r := range s {
+		switch r {
+		case '(':
+			depth++
+		case ')':
+			depth--
+		}
+		if r == ' ' && depth == 0 {
+			if cur != "" {
+				out = append(out, cur)
+				cur = ""
+			}
+			continue
+		}
+		cur += string(r)
+	}
+	if cur != "" {
+		out = append(out, cur)
+	}
+	return out
+}
+
+func parseSort(s string) Sort {
+	switch s {
+	case "U64", "(_ BitVec 64)":
+		return S64
+	case "U8", "(_ BitVec 8)":
+		return S8
+	case "Bool":
+		return SBool
+	case "Hash":
+		return SHash
+	}
+	return Sort{K: KOpaque, Name: s}
+}
+
+// ---------------------------------------------------------------------------
+// Function verification
+// ---------------------------------------------------------------------------
+
+func (p *Prog) genFunc(key string) (*FnCtx, error) {
+	fd := p.Funcs[key]
+	if fd == nil {
+		return nil, fmt.Errorf("function %s not found in package", key)
+	}
+	c := newFnCtx(p, key)
+	c.decl = fd
+	c.fn = p.Info.Defs[fd.Name].(*types.Func)
+	c.contract = p.Contracts.ByKey[key]
+	sig := c.fn.Type().(*types.Signature)
+	st := &State{pc: "true", env: map[types.Object]Val{}, cells: map[*Cell]Val{}}
+
+	// ghost variables for the io contracts
+	for _, g := range []string{"allFull", "ioBytes"} {
+		var t types.Type = types.Typ[types.Bool]
+		var v Val = SV{"true", SBool, false}
+		if g == "ioBytes" {
+			t = types.Typ[types.Int]
+			v = SV{bvInt(0, 64), S64, true}
+		}
+		o := types.NewVar(fd.Pos(), p.Pkg, "$"+g, t)
+		c.ghostObjs[g] = o
+		st.env[o] = v
+	}
+
+	var pobjs []*types.Var
+	if sig.Recv() != nil {
+		pobjs = append(pobjs, sig.Recv())
+	}
+	for i := 0; i < sig.Params().Len(); i++ {
+		pobjs = append(pobjs, sig.Params().At(i))
+	}
+	var cnames []string
+	if c.contract != nil {
+		cnames = c.contract.Params
+		if len(cnames) != len(pobjs) {
+			return nil, fmt.Errorf("contract of %s names %d parameters, function has %d (stale contract)", key, len(cnames), len(pobjs))
+		}
+	}
+	for i, po := range pobjs {
+		hint := po.Name()
+		if hint == "" || hint == "_" {
+			hint = fmt.Sprintf("p%d", i)
+		}
+		v, wf := c.freshVal(po.Type(), hint)
+		for _, f := range wf {
+			c.assume(st, f)
+		}
+		if pv, ok := v.(*PtrVal); ok {
+			cv, wf2 := c.freshVal(po.Type().(*types.Pointer).Elem(), hint+"_cell")
+			for _, f := range wf2 {
+				c.assume(st, f)
+			}
+			st.cells[pv.Cell] = cv
+			// receivers and pointer parameters are assumed non-nil (listed assumption)
+			c.assume(st, pv.NonNil)
+			c.assumptions["pointer parameters/receivers are non-nil"] = true
+		}
+		st.env[po] = v
+		c.inputs = append(c.inputs, InputVar{Name: hint, Type: po.Type(), Val: v})
+		if cnames != nil {
+			c.entryCtr[cnames[i]] = v
+		} else {
+			c.entryCtr[po.Name()] = v
+		}
+	}
+	// results
+	for i := 0; i < sig.Results().Len(); i++ {
+		ro := sig.Results().At(i)
+		c.resTypes = append(c.resTypes, ro.Type())
+		if ro.Name() != "" && ro.Name() != "_" {
+			st.env[ro] = c.zeroVal(ro.Type(), ro.Name())
+			c.resObjs = append(c.resObjs, ro)
+		} else {
+			c.resObjs = append(c.resObjs, nil)
+		}
+	}
+	if c.contract != nil && len(c.contract.Results) > 0 && len(c.contract.Results) != sig.Results().Len() {
+		return nil, fmt.Errorf("contract of %s names %d results, function has %d (stale contract)", key, len(c.contract.Results), sig.Results().Len())
+	}
+	c.entry = st.clone()
+	if c.contract != nil {
+		for _, rq := range c.contract.Requires {
+			c.assume(st, c.evalClause(st, rq, nil))
+		}
+	}
+	// vacuity: the preconditions must be satisfiable
+	c.obls = append(c.obls, &Obl{Name: key + ".smoke.requires", Kind: "smoke", Desc: "preconditions are satisfiable", Prefix: len(c.log), PC: "true", Goal: "false", Pos: fd.Pos(), Smoke: true})
+
+	c.numberLoops(fd.Body)
+	out := c.execBlock(st, fd.Body.List)
+	if out.normal != nil && out.normal.pc != "false" {
+		// falling off the end
+		var vals []Val
+		for _, o := range c.resObjs {
+			if o != nil {
+				vals = append(vals, out.normal.env[o])
+			}
+		}
+		c.rets = append(c.rets, out.normal)
+		c.retVals = append(c.retVals, vals)
+	}
+	// merge the return states, carrying the result values in pseudo variables
+	var robjs []types.Object
+	for i, t := range c.resTypes {
+		robjs = append(robjs, types.NewVar(fd.End(), p.Pkg, fmt.Sprintf("$res%d", i), t))
+	}
+	var rstates []*State
+	for k, rs := range c.rets {
+		s := rs.clone()
+		for i, o := range robjs {
+			if i < len(c.retVals[k]) && c.retVals[k][i] != nil {
+				s.env[o] = c.retVals[k][i]
+			}
+		}
+		rstates = append(rstates, s)
+	}
+	final := c.mergeStates(rstates, "ret")
+	if final != nil {
+		c.obls = append(c.obls, &Obl{Name: key + ".smoke.return", Kind: "smoke", Desc: "some return is reachable", Prefix: len(c.log), PC: final.pc, Goal: "false", Pos: fd.End(), Smoke: true})
+		if c.contract != nil {
+			vars := map[string]Val{}
+			for k, v := range c.entryCtr {
+				vars[k] = v
+			}
+			for i, n := range c.contract.Results {
+				if n != "_" {
+					if v, ok := final.env[robjs[i]]; ok {
+						vars[n] = v
+					}
+				}
+			}
+			env := &CEnv{vars: vars, old: c.entry, oldV: c.entryCtr}
+			for k, en := range c.contract.Ensures {
+				g := c.evalClause(final, en, env)
+				c.obligeNamed(final, fmt.Sprintf("post.%d", k+1), "post", fd.End(), g, "postcondition: "+en.Text)
+			}
+		}
+	}
+	return c, nil
+}
+
+// genLemma: a lemma is a body-less pseudo function: assume requires, prove ensures; calls to repo
+// functions in the clauses are replaced by their contracts.
+func (p *Prog) genLemma(key string) (*FnCtx, error) {
+	ct := p.Contracts.ByKey[key]
+	if ct == nil {
+		return nil, fmt.Errorf("lemma %s not found", key)
+	}
+	c := newFnCtx(p, key)
+	c.contract = ct
+	st := &State{pc: "true", env: map[types.Object]Val{}, cells: map[*Cell]Val{}}
+	// parameter types from the header
+	i := 0
+	for _, f := range ct.Decl.Type.Params.List {
+		tn := types.ExprString(f.Type)
+		for range f.Names {
+			name := ct.Params[i]
+			i++
+			var v Val
+			if cw, ok := convWidths[tn]; ok {
+				v = SV{c.fresh(name, BV(cw.w)), BV(cw.w), cw.sg}
+			} else if tn == "Hash" {
+				v = SV{c.fresh(name, SHash), SHash, false}
+			} else if tn == "bool" {
+				v = SV{c.fresh(name, SBool), SBool, false}
+			} else {
+				return nil, fmt.Errorf("lemma %s: parameter type %s not supported", key, tn)
+			}
+			c.entryCtr[name] = v
+			c.inputs = append(c.inputs, InputVar{Name: name, Val: v})
+		}
+	}
+	c.entry = st.clone()
+	env := &CEnv{vars: c.entryCtr, old: c.entry, oldV: c.entryCtr, lemma: true}
+	for _, rq := range ct.Requires {
+		c.assume(st, c.evalClause(st, rq, env))
+	}
+	c.obls = append(c.obls, &Obl{Name: key + ".smoke.requires", Kind: "smoke", Desc: "lemma hypotheses are satisfiable", Prefix: len(c.log), PC: "true", Goal: "false", Smoke: true})
+	for k, en := range ct.Ensures {
+		g := c.evalClause(st, en, env)
+		c.obligeNamed(st, fmt.Sprintf("lemma.%d", k+1), "lemma", token.NoPos, g, "lemma: "+en.Text)
+	}
+	return c, nil
+}
+
+// ---------------------------------------------------------------------------
+// Query construction
+// ---------------------------------------------------------------------------
+
+var reSym = regexp.MustCompile(`[A-Za-z_$][A-Za-z0-9_!$]*`)
+
+func symbolsOf(s string) []string { return reSym.FindAllString(s, -1) }
+
+type logLine struct {
+	text   string
+	kind   byte // 'd' declare, 'f' define, 'a' assert
+	name   string
+	syms   []string
+	guard  string
+}
+
+var reDecl = regexp.MustCompile(`^\((declare-const|define-fun) (\S+) `)
+
+func parseLog(log []string) []logLine {
+	out := make([]logLine, len(log))
+	for i, l := range log {
+		ll := logLine{text: l}
+		if m := reDecl.FindStringSubmatch(l); m != nil {
+			ll.name = m[2]
+			if m[1] == "declare-const" {
+				ll.kind = 'd'
+			} else {
+				ll.kind = 'f'
+				ll.syms = symbolsOf(l[len(m[0]):])
+			}
+		} else {
+			ll.kind = 'a'
+			ll.syms = symbolsOf(l)
+		}
+		out[i] = ll
+	}
+	return out
+}
+
+// buildQuery slices the log to the cone of influence of the obligation.
+func (c *FnCtx) buildQuery(parsed []logLine, o *Obl, extra []string, full bool) string {
+	rel := map[string]bool{}
+	add := func(ss []string) {
+		for _, s := range ss {
+			rel[s] = true
+		}
+	}
+	add(symbolsOf(o.PC))
+	add(symbolsOf(o.Goal))
+	for _, e := range extra {
+		add(symbolsOf(e))
+	}
+	keep := make([]bool, o.Prefix)
+	defIdx := map[string]int{}
+	for i := 0; i < o.Prefix; i++ {
+		if parsed[i].kind != 'a' {
+			defIdx[parsed[i].name] = i
+		}
+	}
+	// closure over definitions
+	var closeDefs func()
+	closeDefs = func() {
+		changed := true
+		for changed {
+			changed = false
+			for i := o.Prefix - 1; i >= 0; i-- {
+				ll := parsed[i]
+				if ll.kind == 'a' || keep[i] || !rel[ll.name] {
+					continue
+				}
+				keep[i] = true
+				changed = true
+				add(ll.syms)
+			}
+		}
+	}
+	closeDefs()
+	// facts: keep those sharing a non-pc symbol with the relevant set (fixpoint)
+	isPc := func(s string) bool { return strings.HasPrefix(s, "pc!") }
+	changed := true
+	for changed {
+		changed = false
+		for i := 0; i < o.Prefix; i++ {
+			ll := parsed[i]
+			if ll.kind != 'a' || keep[i] {
+				continue
+			}
+			hit := full
+			if !hit {
+				for _, s := range ll.syms {
+					if !isPc(s) && rel[s] && (defIdx[s] > 0 || isDeclared(parsed, defIdx, s)) {
+						hit = true
+						break
+					}
+				}
+			}
+			if hit {
+				keep[i] = true
+				add(ll.syms)
+				changed = true
+			}
+		}
+		if changed {
+			closeDefs()
+		}
+	}
+	var b strings.Builder
+	b.WriteString(c.prog.preludeFor(rel))
+	for _, s := range c.sortDecls {
+		b.WriteString(s + "\n")
+	}
+	for i := 0; i < o.Prefix; i++ {
+		if keep[i] {
+			b.WriteString(parsed[i].text + "\n")
+		}
+	}
+	for _, e := range extra {
+		b.WriteString("(assert " + e + ")\n")
+	}
+	b.WriteString("(assert " + o.PC + ")\n")
+	b.WriteString("(assert " + not(o.Goal) + ")\n")
+	b.WriteString("(check-sat)\n")
+	return b.String()
+}
+
+// preludeFor returns the prelude restricted to the definitions reachable from the given symbols.
+func (p *Prog) initPrelude() {
+	{
+		for _, line := range strings.Split(p.Prelude, "\n") {
+			if strings.HasPrefix(line, ";") || strings.TrimSpace(line) == "" {
+				continue
+			}
+			it := preItem{text: line}
+			if m := rePre.FindStringSubmatch(line); m != nil {
+				it.name = m[1]
+				it.syms = symbolsOf(line)
+			}
+			p.preItems = append(p.preItems, it)
+		}
+	}
+}
+
+func (p *Prog) preludeFor(rel map[string]bool) string {
+	need := map[string]bool{}
+	for s := range rel {
+		need[s] = true
+	}
+	keep := make([]bool, len(p.preItems))
+	for i := len(p.preItems) - 1; i >= 0; i-- {
+		it := p.preItems[i]
+		if it.name == "" || need[it.name] {
+			keep[i] = true
+			for _, s := range it.syms {
+				need[s] = true
+			}
+		}
+	}
+	var b strings.Builder
+	for i, it := range p.preItems {
+		if keep[i] {
+			b.WriteString(it.text + "\n")
+		}
+	}
+	return b.String()
+}
+
+type preItem struct {
+	text string
+	name string
+	syms []string
+}
+
+var rePre = regexp.MustCompile(`^\((?:define-fun|declare-fun|declare-const) (\S+) `)
+
+func isDeclared(parsed []logLine, defIdx map[string]int, s string) bool {
+	_, ok := defIdx[s]
+	return ok
+}
+
+// ---------------------------------------------------------------------------
+// Results
+// ---------------------------------------------------------------------------
+
+type OblResult struct {
+	Name     string            `json:"name"`
+	Func     string            `json:"func"`
+	Kind     string            `json:"kind"`
+	Desc     string            `json:"desc"`
+	Pos      string            `json:"pos,omitempty"`
+	Status   string            `json:"status"` // proved | failed | unknown
+	Solver   string            `json:"solver,omitempty"`
+	TimeS    float64           `json:"time_s"`
+	Queries  int               `json:"queries"`
+	Split    string            `json:"split,omitempty"`
+	Model    map[string]string `json:"model,omitempty"`
+	FailCase string            `json:"fail_case,omitempty"`
+	Output   string            `json:"solver_output,omitempty"`
+	Smoke    bool              `json:"smoke,omitempty"`
+}
+
+type FuncResult struct {
+	Key          string      `json:"key"`
+	Obligations  []OblResult `json:"obligations"`
+	Unsupported  []string    `json:"unsupported,omitempty"`
+	Assumptions  []string    `json:"assumptions,omitempty"`
+	Uncontracted []string    `json:"uncontracted_callees,omitempty"`
+	Externs      []string    `json:"assumed_external_contracts,omitempty"`
+	NoMeasure    []string    `json:"loops_without_termination_measure,omitempty"`
+	Error        string      `json:"error,omitempty"`
+	Inputs       []string    `json:"inputs,omitempty"`
+	GenTimeS     float64     `json:"gen_time_s"`
+}
+
+type Report struct {
+	Funcs     []FuncResult `json:"funcs"`
+	WallS     float64      `json:"wall_s"`
+	SolverS   float64      `json:"solver_time_s"`
+	Queries   int          `json:"queries"`
+	BySolver  map[string]int `json:"discharged_by_solver"`
+}
+
+func main() {
+	repo := flag.String("repo", "/repo", "repository to verify")
+	contracts := flag.String("contracts", "", "contract file (default <repo>/verif_contracts.go)")
+	prelude := flag.String("prelude", "/verif/spec/prelude.smt2", "SMT prelude")
+	funcs := flag.String("funcs", "", "comma-separated function keys / lemma:names ('all' = every contract)")
+	timeout := flag.Float64("timeout", 5, "per-query timeout (s)")
+	jobs := flag.Int("jobs", 16, "parallel solver processes")
+	outPath := flag.String("out", "", "write JSON report here")
+	dumpDir := flag.String("dump", "", "dump SMT queries of failed/unknown obligations here")
+	verbose := flag.Bool("v", false, "verbose")
+	flag.Parse()
+	if *contracts == "" {
+		*contracts = *repo + "/verif_contracts.go"
+	}
+	t0 := time.Now()
+	prog, err := loadProg(*repo, *contracts, *prelude)
+	if err != nil {
+		fmt.Fprintln(os.Stderr, "govc: load:", err)
+		os.Exit(2)
+	}
+	var keys []string
+	if *funcs == "all" {
+		keys = prog.Contracts.Order
+	} else {
+		for _, k := range strings.Split(*funcs, ",") {
+			if k = strings.TrimSpace(k); k != "" {
+				keys = append(keys, k)
+			}
+		}
+	}
+	rep := &Report{BySolver: map[string]int{}}
+	pool := newSolverPool(*jobs, *timeout, *dumpDir)
+	var ctxs []*FnCtx
+	for _, k := range keys {
+		tg := time.Now()
+		var c *FnCtx
+		var err error
+		if ct := prog.Contracts.ByKey[k]; ct != nil && ct.Trusted {
+			rep.Funcs = append(rep.Funcs, FuncResult{Key: k, Assumptions: []string{"trusted contract (assumed, not verified)"}})
+			continue
+		}
+		if strings.HasPrefix(k, "lemma:") {
+			c, err = prog.genLemma(k)
+		} else {
+			c, err = prog.genFunc(k)
+		}
+		fr := FuncResult{Key: k, GenTimeS: time.Since(tg).Seconds()}
+		if err != nil {
+			fr.Error = err.Error()
+			rep.Funcs = append(rep.Funcs, fr)
+			ctxs = append(ctxs, nil)
+			continue
+		}
+		fr.Unsupported = c.unsupported
+		fr.Assumptions = sortedSet(c.assumptions)
+		fr.Uncontracted = sortedSet(c.uncontracted)
+		fr.Externs = sortedSet(c.externUsed)
+		fr.NoMeasure = c.noMeasure
+		for _, in := range c.inputs {
+			fr.Inputs = append(fr.Inputs, in.Name)
+		}
+		rep.Funcs = append(rep.Funcs, fr)
+		ctxs = append(ctxs, c)
+	}
+	// solve
+	idx := 0
+	for fi := range rep.Funcs {
+		if rep.Funcs[fi].Error != "" || len(rep.Funcs[fi].Assumptions) == 1 && rep.Funcs[fi].Assumptions[0] == "trusted contract (assumed, not verified)" {
+			if rep.Funcs[fi].Error != "" {
+				idx++
+			}
+			continue
+		}
+		c := ctxs[idx]
+		idx++
+		pool.submitFunc(c, &rep.Funcs[fi])
+	}
+	pool.wait()
+	for fi := range rep.Funcs {
+		sort.SliceStable(rep.Funcs[fi].Obligations, func(a, b int) bool { return rep.Funcs[fi].Obligations[a].Name < rep.Funcs[fi].Obligations[b].Name })
+		for _, o := range rep.Funcs[fi].Obligations {
+			if o.Status == "proved" && !o.Smoke {
+				rep.BySolver[o.Solver]++
+			}
+		}
+	}
+	rep.WallS = time.Since(t0).Seconds()
+	rep.SolverS = pool.solverTime()
+	rep.Queries = pool.queries()
+	if *outPath != "" {
+		data, _ := json.MarshalIndent(rep, "", " ")
+		os.WriteFile(*outPath, data, 0o644)
+	}
+	// console summary
+	bad := 0
+	for _, f := range rep.Funcs {
+		if f.Error != "" {
+			fmt.Printf("ERROR %s: %s\n", f.Key, f.Error)
+			bad++
+			continue
+		}
+		np, nf, nu := 0, 0, 0
+		for _, o := range f.Obligations {
+			if o.Smoke {
+				if o.Status != "proved" {
+					fmt.Printf("  VACUOUS %s: %s (%s)\n", o.Name, o.Desc, o.Status)
+					bad++
+				}
+				continue
+			}
+			switch o.Status {
+			case "proved":
+				np++
+			case "failed":
+				nf++
+				bad++
+				fmt.Printf("  FAILED  %s [%s] %s %s model=%v %s\n", o.Name, o.Pos, o.Desc, o.Split, o.Model, o.FailCase)
+			default:
+				nu++
+				bad++
+				fmt.Printf("  UNKNOWN %s [%s] %s %s\n", o.Name, o.Pos, o.Desc, o.Split)
+			}
+		}
+		if *verbose || nf+nu > 0 || len(f.Unsupported) > 0 {
+			fmt.Printf("%-40s proved=%d failed=%d unknown=%d unsupported=%d\n", f.Key, np, nf, nu, len(f.Unsupported))
+			for _, u := range f.Unsupported {
+				fmt.Printf("  UNSUPPORTED %s\n", u)
+			}
+		}
+	}
+	fmt.Printf("govc: %d functions, %d queries, solver %.1fs, wall %.1fs\n", len(rep.Funcs), rep.Queries, rep.SolverS, rep.WallS)
+	if bad > 0 {
+		os.Exit(1)
+	}
+}
+
+func sortedSet(m map[string]bool) []string {
+	var out []string
+	for k := range m {
+		out = append(out, k)
+	}
+	sort.Strings(out)
+	return out
 }
